@@ -242,6 +242,9 @@ func (t *fnTrans) loopModSet(li *loopInfo) (all bool, vars map[string]bool) {
 				}
 				cc := in.Common()
 				if callee := g.staticCallee(cc); callee != nil {
+					if callee.Name() == "Clone" && callee.Signature.Recv() != nil && g.isMsgPtr(callee.Signature.Recv().Type()) {
+						s.vars[sharedHV] = true
+					}
 					if g.fnInModule(callee) {
 						cs := g.summaries[callee]
 						if fc := g.contractOf(callee); fc != nil && fc.hasMods {
@@ -370,6 +373,9 @@ func (t *fnTrans) enterLoop(b *ssa.BasicBlock, li *loopInfo) {
 // which lock.balance@backedge checks.
 func (t *fnTrans) havocLoop(all bool, vars map[string]bool) {
 	keepGhost := func(hv string) bool {
+		if hv == sharedHV {
+			return !vars[sharedHV]
+		}
 		return hv == "held" || hv == "rheld" || hv == ownHV || t.g.ann.immutableHV[hv]
 	}
 	reach := t.cur.reach
@@ -452,9 +458,15 @@ func (t *fnTrans) assignSites() {
 				base = "return"
 			case *ssa.MakeChan:
 				base = "makechan"
+			case *ssa.If:
+				base = "if"
 			}
 			if base != "" {
-				all = append(all, ent{in, base, in.Pos(), i})
+				pos := in.Pos()
+				if iff, ok := in.(*ssa.If); ok {
+					pos = condPos(iff.Cond)
+				}
+				all = append(all, ent{in, base, pos, i})
 			}
 		}
 	}
@@ -914,4 +926,18 @@ func (t *fnTrans) heldOfType(field string) string {
 		}
 	}
 	return or(ds...)
+}
+
+
+func condPos(v ssa.Value) token.Pos {
+	if p := v.Pos(); p.IsValid() {
+		return p
+	}
+	switch x := v.(type) {
+	case *ssa.UnOp:
+		return condPos(x.X)
+	case *ssa.Extract:
+		return x.Tuple.Pos()
+	}
+	return token.NoPos
 }
